@@ -341,6 +341,36 @@ Definition new_store (allow_lookup : bool) (extra : list name) (a : arg) (pfx : 
       end
   end.
 
+(* The usage pattern  f := ParseFields(&v, pfx);  st := NewStore{Secrets: f.Secrets() (+ extra)};
+   f.Apply(st);  f.Secrets() again.
+   [given] is the list the first Secrets() call hands to the caller.  NewStore sorts and compacts the
+   slice it is given IN PLACE (store.go secretNames), and the caller may do anything else to it: that
+   is [scr].  In the model a list is a value: nothing done to [given] can reach the parsed fields, so
+   [scr given] is computed and dropped - Apply pairs every field with full_name pfx of THAT field, and
+   a later Secrets() is secrets_of of the same fields.  That the Go object really does not share the
+   slice is a fact about memory, carried by the correspondence run (mode "decl"), exactly as buffer
+   identities are for []byte fields.  Result: what NewStore + Apply did, and the second Secrets(). *)
+Definition declare_apply (allow_lookup : bool) (extra : list name) (scr : list name -> list name)
+           (a : arg) (pfx : bstr) : nsres * list name :=
+  match parse_fields a with
+  | inl e => (NSReject e, [])
+  | inr pfs =>
+    let given := secrets_of pfx pfs in
+    let raw := extra ++ given in
+    let _scribbled := scr given in
+    (if negb (names_ok raw allow_lookup) then NSBadNames
+     else
+       let names := norm_names raw in
+       let mm := fst (declare (@nil (name * option (centry V))) names) in
+       let '(mm', missing) := init_round mm ans now_s in
+       match missing with
+       | S _ => NSInitMissing (stubs mm)
+       | O => let '(s', frs, rq) := apply pfx (ST mm' [] [] allow_lookup 0%Z) pfs in
+              NSDone (stubs mm) s' frs rq
+       end,
+     secrets_of pfx pfs)
+  end.
+
 End Apply.
 
 Arguments CUntouched {V D}.
